@@ -10,6 +10,7 @@ from ..absint import CTX
 from ..absval import Raised
 from ..core import AnalysisError, own_nodes, norm, parents, stmt_of, dominates
 from ..effects import Effects, Resolver
+from . import C15
 from .. import roles, flow, rules
 
 LEVEL_TEXT = ("static analysis: (D1) match_ref_to_sample keys both tables by their (chromosome, start, end) coordinates, reindexes the "
@@ -446,6 +447,7 @@ def run(chk):
     d3(chk, prog)
     d4(chk, prog)
     d5(chk, prog)
+    C15.d1(chk, prog)            # the centring itself: one constant, estimated from the autosomal bins that have coverage (shared with C15-D1)
     d6(chk, prog)
     d7(chk, prog)
     d8(chk, prog)
@@ -466,6 +468,7 @@ MUTANTS = [
     ref_matched = ref_labeled.reindex(index=sample_keys)
     num_missing = pd.isnull(ref_matched["start"]).sum()
     if num_missing:"""),
+    dict(name="seeded C04e: reference rows taken by get_indexer positions (absent bin -> -1 -> last row)", file=_F, old="    ref_matched = ref_labeled.reindex(index=samp_labeled.index)", new="    positions = ref_labeled.index.get_indexer(samp_labeled.index)\n    ref_matched = ref_labeled.iloc[positions]"),
     dict(name="duplicates raise removed", file=_F, old="        if dupes.any():\n            raise ValueError(", new="        if False:\n            raise ValueError("),
     dict(name="reference matched by position", file=_F, old="    ref_matched = ref_labeled.reindex(index=samp_labeled.index)", new="    ref_matched = ref_labeled.iloc[: len(samp_labeled)]"),
     dict(name="mask: log2 <= lower bound", file=_F, old='        (cnarr["log2"] < params.MIN_REF_COVERAGE)', new='        (cnarr["log2"] <= params.MIN_REF_COVERAGE)'),
